@@ -489,6 +489,8 @@ class Stats:
                 self.allocfail_configured += "abort" in o and o["abort"].get("exc") == "MemoryError"
                 self.io_faults_configured += "io_fault" in o
         self.cls[rec["cls"]] += 1
+        if spec.get("race_kind"):
+            self.probes[f"run_kind:{spec['race_kind']}"] += 1
         self.hs[rec["hashseed"]] += 1
         self.steps += rec["steps"]
         self.switches += rec["switches"]
